@@ -114,6 +114,12 @@ pub fn main() -> i32 {
             println!("lib: {:?}", simple_dns::Packet::parse(&m).map(|p| crate::bridge::observe(&p)));
             0
         }
+        Some("dict") => {
+            let d = crate::gen::dict();
+            println!("{} integers: {:?}", d.ints.len(), d.ints);
+            println!("{} strings: {:?}", d.strs.len(), d.strs.iter().map(|s| String::from_utf8_lossy(s).to_string()).collect::<Vec<_>>());
+            0
+        }
         Some("corpus") => {
             let out = args.get(2).cloned().unwrap_or_else(|| "/tmp/vp-corpus".into());
             checks::emit_corpus(Path::new(&out), args.get(3).map(|s| s.as_str()).unwrap_or("parse"));
